@@ -15,7 +15,7 @@ model parser on `infixGrammar t` returns exactly `[nest t e]`, where `nest` make
 (`ClassT.toTL`, `WF.toWFL`), so the statement subsumes `infix_roundtrip_partial`.
 
 Postfix levels and kept (non-Suppress) parentheses are added by `infix_roundtrip_general_partial` (C16Gen.lean), which
-contains this statement as an instance.  STILL MISSING there (oracle/correspondence only): ternary levels, level parse
+contains this statement as an instance.  It also covers ternary levels.  STILL MISSING there (oracle/correspondence only): level parse
 actions, overlapping spellings, ill-formed strings, packrat.
 -/
 namespace PP.Infix.Left
